@@ -156,6 +156,14 @@ def check_ijepa(spec):
         c.set_rng(np.random.default_rng(seed))
         return c
     c1, c2 = make(spec["seed"]), make(spec["seed"] + 7919)
+    # a user subclass that overrides the public step() hook (e.g. to follow the trainer's update counter): block sizes follow the step
+    # that hook reports - here the same numbers the plain collators count, although this object is called twice as often
+    c3 = make(spec["seed"] + 104729)
+
+    class _External(type(c3)):
+        def step(self):
+            return self.external_step
+    c3.__class__ = _External
     samples = _samples(B, 1, False)
     exp = torch.utils.data.default_collate([s[0] for s in samples])
     evals = 0
@@ -207,6 +215,19 @@ def check_ijepa(spec):
             evals += 1
         if dims[0] != dims[1]:
             raise Violation("ijepa:block-size-depends-on-rng", f"step {step}: {dims[0]} vs {dims[1]} for different rng seeds")
+        ext_dims = []
+        for _ in range(2):
+            c3.external_step = step  # the plain collators count 0, 1, 2, ...
+            try:
+                with _Alarm(5.0):
+                    _, ctx3 = c3(samples)
+            except TimeoutError:
+                raise Refused("collator did not return within 5 s (relaxation cannot reach min_keep)")
+            row = ctx3["predictor_masks"][0].tolist()
+            ext_dims.append((len({i // W for i in row}), len({i % W for i in row})))
+        if ext_dims[0] != dims[0] or ext_dims[1] != dims[0]:
+            raise Violation("ijepa:block-size-does-not-follow-the-step-hook", f"step() reports {step}: predictor blocks {ext_dims}, a plain collator at "
+                                                                              f"step {step} has {dims[0]}")
     nt = H != W or spec["n_pred"] >= 2 or spec["steps"] >= 2 or ph != pw
     return Case(nt, ["disjoint-claimed" if disjoint_claimed else "relaxation-possible", "steps=%d" % spec["steps"]], evals)
 
@@ -224,9 +245,55 @@ IJEPA = st.fixed_dictionaries({"gh": st.integers(3, 16), "gw": st.integers(3, 16
                                "tries": st.sampled_from([1, 5, 20]), "B": st.integers(1, 6), "seed": st.integers(0, 2 ** 31),
                                "steps": st.integers(1, 4)})
 
+class _SampleDS(torch.utils.data.Dataset):
+    def __init__(self, n):
+        self.n = n
+
+    def __len__(self):
+        return self.n
+
+    def __getitem__(self, k):
+        return (torch.full((1, 2, 2), float(k)), {"tag": torch.tensor(float(k))})
+
+
+def check_ijepa_shared_step(spec):
+    """the step counter is one per collator object and shared by the worker processes forked from it: the batches of one pass through a
+    two-worker DataLoader carry the block sizes of steps 0 .. n-1 (in whatever order the workers collate them)"""
+    from kappadata.collators import KDIjepaMaskCollator
+    G = spec["grid"]
+
+    def make():
+        c = KDIjepaMaskCollator(input_size=(G * 4, G * 4), patch_size=4, encoder_mask_scale=(0.85, 1.0), predictor_mask_scale=tuple(spec["pred_scale"]),
+                                predictor_aspect_ratio=(0.75, 1.5), num_enc_masks=1, num_pred_masks=spec["n_pred"], min_keep=1, dataset_mode="x",
+                                return_ctx=True)
+        c.set_rng(np.random.default_rng(spec["seed"]))
+        return c
+
+    def dims(ctx):
+        row = ctx["predictor_masks"][0].tolist()
+        return (len({i // G for i in row}), len({i % G for i in row}))
+    nb, B = spec["batches"], spec["B"]
+    ref, exp = make(), []
+    for _ in range(nb):
+        exp.append(dims(ref([_SampleDS(B)[k] for k in range(B)])[1]))
+    if len(set(exp)) < 2:
+        raise Refused("all steps give the same block size")
+    coll = make()  # never called in the main process
+    loader = torch.utils.data.DataLoader(_SampleDS(nb * B), batch_size=B, num_workers=spec["workers"], collate_fn=coll)
+    got = [dims(ctx) for _, ctx in loader]
+    if sorted(got) != sorted(exp):
+        raise Violation("ijepa:workers-do-not-share-the-step-counter", f"{spec['workers']} workers, {nb} batches: block sizes {got}, steps 0..{nb - 1} give {exp}")
+    return Case(True, ["workers=%d" % spec["workers"]], nb)
+
+
+IJEPA_W = st.fixed_dictionaries({"grid": st.sampled_from([8, 10]), "pred_scale": st.sampled_from([[0.05, 0.5], [0.1, 0.4]]), "n_pred": st.integers(1, 2),
+                                 "batches": st.integers(4, 10), "B": st.integers(1, 3), "workers": st.sampled_from([2, 2, 3]), "seed": st.integers(0, 999)})
+
 FACETS = [
     Facet("dino", guarded("dino", check_dino), strategy=lambda tier: DINO, budget={"quick": 3000, "thorough": 40000},
           shards={"quick": 6, "thorough": 12}, min_nontrivial={"quick": 500, "thorough": 5000}),
     Facet("ijepa", guarded("ijepa", check_ijepa), strategy=lambda tier: IJEPA, budget={"quick": 2000, "thorough": 30000},
           shards={"quick": 6, "thorough": 12}, min_nontrivial={"quick": 300, "thorough": 3000}, case_timeout=120),
+    Facet("ijepa-shared-step", guarded("ijepa-shared-step", check_ijepa_shared_step), strategy=lambda tier: IJEPA_W,
+          budget={"quick": 32, "thorough": 120}, shards={"quick": 8, "thorough": 12}, min_nontrivial={"quick": 10, "thorough": 40}, case_timeout=300),
 ]
